@@ -7,8 +7,8 @@
    Only statements + `exact <lemma>`; proofs in C01/*.v. *)
 From Coq Require Import List ZArith Bool.
 Import ListNotations.
-From SV Require Import C01.SatSpec C01.Rup C01.Machine C01.Luby.
-From SV Require C01.RupProofs C01.SatLemmas C01.MachineInv C01.MachineThms C01.LubyProofs.
+From SV Require Import C01.SatSpec C01.Rup C01.Machine C01.Luby C01.Budget.
+From SV Require C01.RupProofs C01.SatLemmas C01.MachineInv C01.MachineThms C01.LubyProofs C01.BudgetProofs.
 Open Scope Z_scope.
 
 (* reverse unit propagation is a sound entailment test *)
@@ -73,6 +73,22 @@ Theorem luby_pinned_refuted : forall fuel, luby_pinned fuel 2 = None.
 Proof. exact LubyProofs.luby_pinned_refuted. Qed.
 Print Assumptions luby_pinned_refuted.
 
+(* stretch: the budget counters recomputed from the trace (C01/Budget.v) never decrease ... *)
+Theorem budget_monotone : forall lf mc mr evs1 evs2 b0 b1 b2,
+  b_run_from lf mc mr b0 evs1 = Some b1 -> b_run_from lf mc mr b1 evs2 = Some b2 ->
+  b_run_from lf mc mr b0 (evs1 ++ evs2) = Some b2 /\ BudgetProofs.b_le b0 b1 /\ BudgetProofs.b_le b1 b2.
+Proof. exact BudgetProofs.budget_monotone. Qed.
+Print Assumptions budget_monotone.
+
+(* ... and a MAX_ITER verdict is accepted only when max_conflicts <= analysed conflicts + 1, or at a restart
+   point with restarts >= max_restarts.  Partial: that `conflicts` is within {L, L+1} of the number L of learn
+   events is read off the code, not proved (the machine does not see the counter). *)
+Theorem budget_partial : forall lf mc mr evs b,
+  b_run lf mc mr (evs ++ [EVerdict MAX_ITER]) = Some b ->
+  mc <= b_learns b + 1 \/ (mr <= b_restarts b /\ b_next b <= b_csr b).
+Proof. exact BudgetProofs.budget_partial. Qed.
+Print Assumptions budget_partial.
+
 (* ---- non-vacuity: real traces of /repo ---- *)
 Definition ex_unsat : cnf :=
   [[1; 2; 3]; [-1; -2]; [1; -2; -3]; [-1; 2; -3]; [-1; -2; 3]; [1; 2; -3]; [1; -2; 3]; [-1; 2; 3]].
@@ -100,3 +116,11 @@ Example C02_luby_prefix_example :
   map (fun i => luby (luby_fuel i) i) [1; 2; 3; 4; 5; 6; 7; 8; 9; 10; 11; 12; 13; 14; 15]
   = map Some [1; 1; 2; 1; 1; 2; 4; 1; 1; 2; 1; 1; 2; 4; 8].
 Proof. vm_compute. reflexivity. Qed.
+
+(* max_restarts = 0, luby_factor = 1: the first analysed conflict is a restart point -> MAX_ITER accepted;
+   the same verdict without a met budget is rejected *)
+Example C02_nonvacuous_budget :
+  budget_ok 1 100000 0 [EInit 3 [] [] []; ELearn [-1] false; EVerdict MAX_ITER] = true
+  /\ budget_ok 100 100000 10000 [EInit 3 [] [] []; ELearn [-1] false; EVerdict MAX_ITER] = false
+  /\ budget_ok 100 2 10000 [EInit 3 [] [] []; ELearn [-1] false; EVerdict MAX_ITER] = true.
+Proof. vm_compute. repeat split. Qed.
